@@ -66,6 +66,8 @@ func checkC05(c *Ctx) {
 	c.As(map[string]string{"R6.2": "R5.12"}, func() { c6StdBridge(c, "R6.2", c5LevelValues(c)) })
 	c.Rule("R5.13", "wrapper cores (level filter, hooks, sampler) derive a wrapper of their own kind around the derived inner core: a child never loses the filter", 5)
 	c.As(map[string]string{"R7.4": "R5.13"}, func() { c7Wrappers(c) })
+	c.Rule("R5.14", "each method of the gRPC adapter logs through the delegate method of its own level (what V reports for a severity is then what decides the entry, and the entry carries that level)", 15)
+	c6GrpcRoutes(c, "R5.14")
 	c.Rule("R5.5", "CheckedEntry.Write in front ends only under ce != nil", 8)
 	c.Rule("R5.6", "AtomicLevel: a single atomic, read afresh by Enabled, written only by Store", 3)
 
